@@ -397,6 +397,27 @@ func cmdE2E(args []string) error {
 					go m.reader()
 					ev["r"] = "ok"
 				}
+			case "badjoin":
+				// a request to the monitor URL that does not become a WebSocket: a plain GET, or a handshake from a foreign origin
+				u := strings.Replace(e.wsbase, "ws://", "http://", 1) + "/api/v2/monitor/messages"
+				if st.Mb != "" {
+					u += "/" + url.PathEscape(st.Mb)
+				}
+				req, _ := http.NewRequest(http.MethodGet, u, nil)
+				if st.Ver == "origin" {
+					req.Header.Set("Connection", "Upgrade")
+					req.Header.Set("Upgrade", "websocket")
+					req.Header.Set("Sec-WebSocket-Version", "13")
+					req.Header.Set("Sec-WebSocket-Key", "dGhlIHNhbXBsZSBub25jZQ==")
+					req.Header.Set("Origin", "http://evil.example")
+				}
+				resp, err := http.DefaultClient.Do(req)
+				if err != nil {
+					ev["status"] = -1
+				} else {
+					ev["status"] = resp.StatusCode
+					resp.Body.Close()
+				}
 			case "drain":
 				ev["mon"] = st.Mon
 				e.settle()
